@@ -40,7 +40,9 @@ def check_program(prog, root):
     pkg = "".join(c if c.isalnum() or c == "_" else "_" for c in pkg)
     vprogs.write_package(prog, root, pkg)
     ms = [n for n in prog["order"] if n[0] == "m"]
-    acts = [["import"]] + [["deps", n] for n in ms] + [["call", n, 1] for n in ms]
+    # every function is first called with the argument a hidden call will use (x - 1 = 0): a hidden callee is then
+    # already memoized when the hidden call is made - it must be refused all the same
+    acts = [["import"]] + [["deps", n] for n in ms] + [["call", n, 0] for n in ms] + [["call", n, 1] for n in ms]
     out = vrun.child(dict(root=root, pkg=pkg, store=os.path.join(root, "store"), actions=acts))
     fails, obs = [], {}
     if out[0] != "ok":
@@ -60,7 +62,7 @@ def check_program(prog, root):
         if sorted(d["edges"]) != exp_e:
             fails.append(dict(clause="graph-edges-exact", fn=n, got=sorted(d["edges"]), expected=exp_e))
     for i, n in enumerate(ms):
-        c = out[1 + len(ms) + i]
+        c = out[1 + 2 * len(ms) + i]
         if not isinstance(c, dict) or "error" in c:
             fails.append(dict(clause="call-runs", fn=n, error=c))
             continue
@@ -113,6 +115,18 @@ def secret(x):
     return x + 100
 
 
+@memento_function(cluster="vp", version="pinned-1")
+def secret_pinned(x):
+    vrec.REC.enter("secret_pinned", x)
+    return x + 200
+
+
+@memento_function(cluster="vp")
+def sneaky(x):
+    vrec.REC.enter("sneaky", x)
+    return globals()["secret_" + "pinned"](x)
+
+
 @memento_function(cluster="vp")
 def helper(x):
     return x
@@ -161,6 +175,14 @@ def dynamic_scenarios(root):
                     fails.append(dict(clause="undeclared-call-refused", scenario="function-argument", order=order, action=act, got=res[:2]))
             elif res[0] != "ok":
                 fails.append(dict(clause="argument-function-call-allowed", scenario="function-argument", order=order, action=act, got=res[:3]))
+    # a hidden call to an explicitly versioned function (memoized or not) is refused like any other
+    for pre in (False, True):
+        seq = ([["call", "secret_pinned", 7]] if pre else []) + [["call", "sneaky", 7]]
+        out = vrun.child(dict(root=root, pkg=pkg, store=os.path.join(root, "store_p%d" % pre), actions=[["import"]] + seq))
+        res = out[-1].get("result") if isinstance(out[-1], dict) else ["error", out[-1]]
+        if not (res[0] == "raise" and res[1] == "UndeclaredDependencyError"):
+            fails.append(dict(clause="undeclared-call-refused", scenario="explicitly-versioned-callee", callee_memoized=pre, got=res[:2]))
+    fails += package_init_scenario(root)
     seq = [["import"], ["deps", "late_user"], ["call", "late_user", 1], ["bind", "aux", "late", "secret"], ["deps", "late_user"], ["call", "late_user", 2]]
     out = vrun.child(dict(root=root, pkg=pkg, store=os.path.join(root, "store2"), actions=seq))
     try:
@@ -170,6 +192,36 @@ def dynamic_scenarios(root):
             fails.append(dict(clause="declared-call-allowed", scenario="late-bound-attribute", got=out[5]["result"][:3]))
     except Exception as e:
         fails.append(dict(clause="dependencies-computable", scenario="late-bound-attribute", error=repr(e), out=out))
+    return fails
+
+
+def package_init_scenario(root):
+    """plain helpers and memento functions defined in a package's __init__.py belong to the package like those of its
+    modules: the walk descends through them in both directions"""
+    pkg = "vinit_%d" % os.getpid()
+    d = os.path.join(root, pkg)
+    os.makedirs(d, exist_ok=True)
+    open(os.path.join(d, "__init__.py"), "w").write(
+        'from twosigma.memento import memento_function\n\n\n'
+        '@memento_function(cluster="vp")\ndef leaf_cfg(x):\n    return x + 1\n\n\n'
+        'def init_helper(x):\n    return leaf_cfg(x)\n\n\n'
+        '@memento_function(cluster="vp")\ndef entry(x):\n    from . import mod\n    return mod.mod_helper(x)\n')
+    open(os.path.join(d, "aux.py"), "w").write("")
+    open(os.path.join(d, "mod.py"), "w").write(
+        'from twosigma.memento import memento_function\nimport %s as _pkg\nfrom . import aux\n\n\n'
+        '@memento_function(cluster="vp")\ndef leaf_h(x):\n    return x + 2\n\n\n'
+        'def mod_helper(x):\n    return leaf_h(x)\n\n\n'
+        '@memento_function(cluster="vp")\ndef top_attr(x):\n    return _pkg.init_helper(x)\n' % pkg)
+    fails = []
+    out = vrun.child(dict(root=root, pkg=pkg, store=os.path.join(root, "store_init"),
+                          actions=[["import"], ["deps", "top_attr"], ["call", "top_attr", 1]]))
+    try:
+        if out[1]["trans"] != ["leaf_cfg"]:
+            fails.append(dict(clause="transitive-dependencies-exact", scenario="helper-in-package-init", got=out[1]["trans"], expected=["leaf_cfg"]))
+        if out[2]["result"][0] != "ok":
+            fails.append(dict(clause="declared-call-allowed", scenario="helper-in-package-init", got=out[2]["result"][:3]))
+    except Exception as e:
+        fails.append(dict(clause="dependencies-computable", scenario="helper-in-package-init", error=repr(e), out=out))
     return fails
 
 
